@@ -45,7 +45,7 @@ def model_match(s, host):
     return any(q[:len(g)] == g for g in s)
 
 
-URL_FORMS = ["%s", "http://%s/p/a.b?x=a.b", "https://u:p@%s:8080/", "//%s#f"]
+URL_FORMS = ["%s", "http://%s/p/a.b?x=a.b", "https://u:p@%s:8080/", "//%s#f", "%s/r?to=https://a.b/", "%s:8080/x#http://b.a"]
 
 
 def _compare(t, adds, queries, out, step, forms=URL_FORMS):
@@ -89,7 +89,7 @@ def eval_history(case):
         except Exception as e:  # noqa
             return [("C09/raises", "add(%r) raised %r" % (h, e))]
         if every or i == len(adds) - 1:
-            _compare(t, adds[:i + 1], queries, out, i + 1, URL_FORMS if not every else URL_FORMS[:2])
+            _compare(t, adds[:i + 1], queries, out, i + 1, URL_FORMS if not every else URL_FORMS[:2] + URL_FORMS[4:5])
             if out:
                 break
     if not adds:
